@@ -11,7 +11,8 @@ RULE = ('Exhaustive enumeration of 7 letters x 5 alterations (-2..+2) x octaves 
         '= 25,200 calls of kernpy.transpose, each compared with an independent letter/semitone model, plus the inverse, '
         'unison, octave and fourth+fifth laws on the same grid and the interval-name table.  A case is (pitch, '
         'interval, direction); it is non-trivial when the model result is spellable with <=2 accidentals and differs '
-        'from the source spelling.  Both tiers enumerate the whole grid; thorough adds the AgnosticPitch-level API '
+        'from the source spelling.  Both tiers enumerate the whole grid, once with fresh pitches and twice on a single '
+        'AgnosticPitch object whose name/octave attributes are re-assigned between calls; thorough adds the AgnosticPitch-level API '
         '(transpose_agnostics) on the same grid.')
 ASSUMPTIONS = ['kv/pitch.py (letter/semitone arithmetic, interval names from quality+number) is the reference',
                'results needing more than two accidentals are unconstrained (may raise or return anything), as the property says']
@@ -107,6 +108,40 @@ def check_american(case):
                   sample={'agnostic': [p.name, p.octave], 'interval': name, 'direction': direction, 'result': [q.name, q.octave]})
 
 
+def check_reused(case):
+    """the whole grid again on ONE AgnosticPitch object whose public name / octave attributes are re-assigned between
+    calls (a value cached inside the object must not survive the assignment)"""
+    p = kp.AgnosticPitch('C', 4)
+    n = 0
+    order = case['order']
+    for l in range(7):
+        for alt in range(-2, 3):
+            nm = M.LETTERS[l] + ('+' * alt if alt > 0 else '-' * -alt)
+            if order == 'name-outer':
+                p.name = nm
+            for o in range(0, 9):
+                if order == 'name-outer':
+                    p.octave = o
+                else:
+                    p.octave = o
+                    p.name = nm
+                for name in M.INTERVAL_NAMES:
+                    for d in ('up', 'down'):
+                        l1, a1, o1 = M.transpose(l, alt, o, name, d)
+                        if not -2 <= a1 <= 2:
+                            continue
+                        q = kp.transpose_agnostics(p, kp.IntervalsByName[name], direction=d)
+                        n += 1
+                        expn = M.LETTERS[l1] + ('+' * a1 if a1 > 0 else '-' * -a1)
+                        if (q.name, q.octave) != (expn, o1):
+                            raise Bad('reused-object', f'one AgnosticPitch object re-assigned to ({nm},{o}) [{order}]: {name} {d} gives '
+                                                       f'({q.name},{q.octave}), model ({expn},{o1})')
+                        if (p.name, p.octave) != (nm, o):
+                            raise Bad('reused-object-mutated', f'transposition changed its argument to ({p.name},{p.octave})')
+    return Result(nontrivial=True, classes=['reused-object'], evals=n, key=['reused', order],
+                  sample={'reused_object': order, 'calls': n})
+
+
 def grid():
     for l in range(7):
         for alt in range(-2, 3):
@@ -119,6 +154,7 @@ def grid():
 def run(ctx):
     ctx.check_all([{'table': True}], check_table)
     ctx.check_all(grid(), check)
+    ctx.check_all([{'order': 'name-outer'}, {'order': 'octave-then-name'}], check_reused)
     if not ctx.quick:
         ctx.check_all(grid(), check_american)
     ctx.rec.exhaustive = True
@@ -128,6 +164,8 @@ def run(ctx):
 def replay(case):
     if 'table' in case:
         return check_table(case)
+    if 'order' in case:
+        return check_reused(case)
     r = check(case)
     check_american(case)
     return r
